@@ -75,6 +75,7 @@ struct Outcome {          // what a run produced, for oracles / differential com
   int steps = 0; int stops_while_running = 0; int storage_switches = 0; bool fault_fired = false;
   int leaves_started = 0; bool had_deferred = false; bool nonvalue_leaf = false;
   std::map<long, long> allocate_started;   // model: allocator id -> allocate() nodes started with it visible
+  long throw_points = 0;                   // throwable events met by this run (value copies/moves, leaf connects, harness allocator calls)
 };
 
 struct RunCtl {
